@@ -147,8 +147,8 @@ def run(prop, tier, seed, replay):
     from yaw.correlation.corrfunc import CorrFunc
     from yaw.redshifts import HistData, RedshiftData
 
-    ck = Check(prop, tier, seed, kernels=KERNELS, theorems=THEOREMS,
-               lean_modules=["YawVerif.Props.C04"], rule=RULE,
+    ck = Check(prop, tier, seed, kernels=KERNELS + ["k_glue"], theorems=THEOREMS + ["Yaw.Glue.glue_flags"],
+               lean_modules=["YawVerif.Props.C04", "YawVerif.Props.Glue"], rule=RULE,
                assumptions=["numpy elementwise +,-,*,/ and sqrt are correctly rounded",
                             "np.nansum skips NaN entries"])
     ck.translate()
@@ -294,12 +294,22 @@ def run(prop, tier, seed, replay):
                 ck.add_tie_break("nz impl vs generated model", {"diff": bad, "request": nz_reqs[i]})
 
     # ---- from_corrfuncs = from_corrdata(sample(), ...) -------------------------------------
-    for case, cf, cd in good[:20]:
+    for gi, (case, cf, cd) in enumerate(good[:20]):
         a = RedshiftData.from_corrfuncs(cf)
         b = RedshiftData.from_corrdata(cd)
         ck.case(None, None)
         if not (a == b):
             ck.add_violation("from_corrfuncs differs from from_corrdata(sample())", {"kind": "cf", "request": "n/a"})
+        # with reference and / or unknown autocorrelation (here: the same measurement in the other roles): each one is
+        # sampled and lands in its own slot of from_corrdata
+        for use_ref, use_unk in ((True, False), (False, True), (True, True)):
+            a2 = RedshiftData.from_corrfuncs(cf, cf if use_ref else None, cf if use_unk else None)
+            b2 = RedshiftData.from_corrdata(cd, cd if use_ref else None, cd if use_unk else None)
+            ck.count(f"from_corrfuncs ref={use_ref} unk={use_unk}")
+            if not (a2 == b2):
+                ck.add_violation(f"from_corrfuncs(cross, ref={use_ref}, unk={use_unk}) differs from from_corrdata of the sampled "
+                                 "correlation functions", {"kind": "cf", "request": "n/a"})
+                break
 
     # ---- normalisation ------------------------------------------------------------------------
     hn_reqs, hn_cases = [], []
